@@ -165,7 +165,7 @@ Lemma Rltb_false a b : Rltb a b = false <-> b <= a.
 Proof. unfold Rltb. destruct (Rlt_dec a b); split; intros; auto; try discriminate; lra. Qed.
 
 Definition Rops : ops R :=
-  mkops R Rplus Rminus Rmult Rdiv Rabs sqrt INR Rltb 0 (/ 10) (2 / 10) (/ 2) (11 / 10) 180 PI cos sin.
+  mkops R Rplus Rminus Rmult Rdiv Rabs sqrt INR Rltb 0 (/ 10) (2 / 10) (/ 2) (11 / 10) 180 PI cos sin 100 Int_part.
 
 Section Reals.
   Variable m : mode.
